@@ -38,7 +38,7 @@ _TAGSETS = [(), ("Painted",), ("Painted", "Hap1"), ("Haplotig",), ("Painted", "X
 
 def plan(tier):
     if tier == "thorough":
-        return {"runs": 60000, "chunk": 100, "wall_budget": 3300, "resample": 50}
+        return {"runs": 800000, "chunk": 500, "wall_budget": 3300, "resample": 50}
     return {"runs": 16000, "chunk": 100, "wall_budget": 600, "resample": 20}
 
 
@@ -473,6 +473,7 @@ def pipeline_monitor(rng):
 # ---------------------------------------------------------------------------
 
 HIST_PER_RUN = 40
+DISCARD_UNITS_PER_RUN = HIST_PER_RUN  # discards are counted per history, not per run
 PIPE_PER_RUN = 2
 
 
